@@ -1,8 +1,6 @@
 import PhreeqcVerif.Lemmas.BasicParse
 import PhreeqcVerif.Model.BasicExec
-import Mathlib.Tactic.Linarith
-import Mathlib.Tactic.Ring
-import Mathlib.Algebra.Order.Field.Rat
+import PhreeqcVerif.Lemmas.BasicFor
 /-! C17 — BASIC programs compute standard arithmetic, string and control-flow semantics.
 
 Theorems about the reference evaluator `Model/Basic*.lean` (the executable model of `PBasic.cpp` that
@@ -43,7 +41,7 @@ theorem rel_mask_is_the_six_relations :
     BasicTokens.relRange = ("tokeq", "tokne") ∧
     (BasicTokens.tokEnum.drop 14).take 6 = ["tokeq", "toklt", "tokgt", "tokle", "tokge", "tokne"] ∧
     enumIndex "tokeq" = some 14 ∧ enumIndex "tokne" = some 19 := by
-  decide
+  decide +kernel
 
 /-- the operator masks of `term`, `sexpr`, `expr` name exactly the operators of their level, every masked
 enumerator is below 32 (the code tests `kind < 32` before shifting), and AND/OR/XOR/MOD/NOT precede 32 too -/
@@ -55,7 +53,7 @@ theorem loop_masks :
       fun t => match enumIndex t with
         | some i => i < 32
         | none => false) = true := by
-  decide
+  decide +kernel
 
 /-! ## expressions: precedence and associativity -/
 
@@ -118,14 +116,14 @@ theorem eval_compositional {α : Type} [BNum α] (hook : Hook α) (op : BinOp) (
          match eval hook b s1 with
          | .error e => .error e
          | .ok (vb, s2) => applyBin op va vb s2) := by
-  rw [eval]
+  rw [eval]; rfl
 
 theorem eval_compositional_un {α : Type} [BNum α] (hook : Hook α) (f : UnFn) (a : Expr α) (s : St α) :
     eval hook (.un f a) s =
       (match eval hook a s with
        | .error e => .error e
        | .ok (v, s1) => applyUn hook f v s1) := by
-  rw [eval]
+  rw [eval]; rfl
 
 /-! ## execution: values or a typed error, never stuck -/
 
@@ -192,13 +190,27 @@ theorem hosts_agree {α : Type} [BNum α] (o : Outcome α) :
       cases hsv : s.save with
       | none => simp
       | some y =>
-        by_cases hy : BNum.isNaN y = true
-        · simp [hy]
-          intro hxy; subst hxy; simp [hy]
-        · simp [hy]
+        cases hy : BNum.isNaN y with
+        | true =>
+          simp only [hy, if_true]
           constructor
-          · intro hxy; subst hxy; simpa using hy
-          · intro hxy; exact hxy.1
+          · intro h'; cases h'
+          · intro h'
+            have : y = x := Option.some.inj h'.1
+            subst this
+            rw [hy] at h'
+            exact absurd h'.2 (by simp)
+        | false =>
+          simp only [hy]
+          constructor
+          · intro h'
+            have : y = x := by simpa using h'
+            subst this
+            exact ⟨rfl, hy⟩
+          · intro h'
+            have : y = x := Option.some.inj h'.1
+            subst this
+            simp
 
 /-! ## GOSUB / RETURN -/
 
@@ -315,138 +327,57 @@ theorem read_data_order {α : Type} [BNum α] (s : St α) (i : Nat) (hdl : s.dat
 section ForLoop
 variable (F : RatFns)
 
-/-- **FOR iterations, positive step.** In exact arithmetic a loop `FOR v = a TO b STEP s` with `s > 0` whose body
-leaves `v` alone runs exactly `n` times, where `n` is the unique number with `a + (n-1)·s ≤ b < a + n·s`
-(i.e. `n = ⌊(b − a)/s⌋ + 1`) or `0` when `a > b`; the body sees `a, a+s, …, a+(n−1)s` and the variable is left
-at `a + n·s`, the first value past the limit (`a` itself when the loop is skipped) -/
-theorem for_iterations_pos (a b s : Rat) (hs : 0 < s) :
-    letI := ratNum F
-    (b < a → ∀ fuel, forLoop a b s fuel = ([], a)) ∧
+/-- **FOR iterations, positive step.** In exact arithmetic (`ratNum F`: `Rat` with arbitrary uninterpreted libm
+functions) a loop `FOR v = a TO b STEP s` with `s > 0` whose body leaves `v` alone runs exactly `n` times, where
+`n` is the unique number with `a + (n-1)·s ≤ b < a + n·s` (i.e. `n = ⌊(b − a)/s⌋ + 1`), or not at all when
+`a > b`; the body sees `a, a+s, …, a+(n−1)s` and the variable is left at `a + n·s`, the first value past the
+limit (`a` itself when the loop is skipped). `forLoop` iterates `forSkips` / `nextContinues`, the two decision
+functions `execStmt` itself calls for FOR and NEXT (`next_uses_nextContinues`). -/
+theorem for_iterations (a b s : Rat) (hs : 0 < s) :
+    (b < a → ∀ fuel, @forLoop Rat (ratNum F) a b s fuel = ([], a)) ∧
     (∀ n : Nat, 1 ≤ n → a + ((n : Rat) - 1) * s ≤ b → b < a + (n : Rat) * s → ∀ fuel, n ≤ fuel →
-      forLoop a b s fuel = ((List.range n).map (fun i => a + (i : Rat) * s), a + (n : Rat) * s)) := by
-  letI := ratNum F
-  have hskip : ∀ v : Rat, forSkips v b s = decide (b < v) := by
-    intro v
-    simp only [forSkips, BNum.ge, BNum.gt, BNum.le, BNum.lt, BNum.zero, BNum.ofInt]
-    have h1 : decide ((0 : Rat) ≤ s) = true := by simpa using le_of_lt hs
-    have h2 : decide (s ≤ (0 : Rat)) = false := by simpa using hs
-    simp [h1, h2]
-  have hcont : ∀ v : Rat, nextContinues v b s = decide (v ≤ b) := by
-    intro v
-    simp only [nextContinues, BNum.ge, BNum.gt, BNum.le, BNum.lt, BNum.zero, BNum.ofInt]
-    have h1 : decide (s < (0 : Rat)) = false := by simpa using le_of_lt hs
-    have h2 : decide ((0 : Rat) < s) = true := by simpa using hs
-    simp [h1, h2]
-  constructor
-  · intro hab fuel
-    simp [forLoop, hskip, hab]
-  · have body : ∀ n : Nat, 1 ≤ n → ∀ (v : Rat) fuel, n ≤ fuel → v + ((n : Rat) - 1) * s ≤ b → b < v + (n : Rat) * s →
-        forBody b s fuel v = ((List.range n).map (fun i => v + (i : Rat) * s), v + (n : Rat) * s) := by
-      intro n
-      induction n with
-      | zero => intro h; omega
-      | succ n ih =>
-        intro _ v fuel hfuel hle hlt
-        obtain ⟨f, rfl⟩ : ∃ f, fuel = f + 1 := ⟨fuel - 1, by omega⟩
-        simp only [forBody, BNum.add, hcont]
-        by_cases hn : n = 0
-        · subst hn
-          have : ¬ (v + s ≤ b) := by
-            have : b < v + s := by simpa using hlt
-            exact not_le.mpr this
-          simp [this]
-        · have hn1 : 1 ≤ n := Nat.one_le_iff_ne_zero.mpr hn
-          have hge : v + s ≤ b := by
-            have h1 : (1 : Rat) ≤ (n : Rat) := by exact_mod_cast hn1
-            have : v + s ≤ v + ((n : Rat) + 1 - 1) * s := by nlinarith
-            push_cast at hle
-            linarith
-          have := ih hn1 (v + s) f (by omega) (by push_cast at hle ⊢; linarith) (by push_cast at hlt ⊢; linarith)
-          simp only [hge, decide_true, if_true, this]
-          refine Prod.ext ?_ ?_
-          · simp only [List.range_succ_eq_map, List.map_cons, List.map_map]
-            congr 1
-            · simp
-            · apply List.map_congr_left
-              intro i _
-              simp only [Function.comp, Nat.cast_succ]
-              ring
-          · push_cast; ring
-    intro n hn hle hlt fuel hfuel
-    have hna : ¬ (b < a) := by
-      have h1 : (1 : Rat) ≤ (n : Rat) := by exact_mod_cast hn
-      have : a ≤ a + ((n : Rat) - 1) * s := by nlinarith
-      exact not_lt.mpr (le_trans this hle)
-    simp only [forLoop, hskip, hna, decide_false]
-    exact body n hn a fuel hfuel hle hlt
+      @forLoop Rat (ratNum F) a b s fuel
+        = ((List.range n).map (fun (i : Nat) => a + (i : Rat) * s), a + (n : Rat) * s)) :=
+  for_iterations_pos F a b s hs
 
-/-- **FOR iterations, negative step** (`s < 0`, counting down to `b`): mirror image -/
-theorem for_iterations_neg (a b s : Rat) (hs : s < 0) :
-    letI := ratNum F
-    (a < b → ∀ fuel, forLoop a b s fuel = ([], a)) ∧
+/-- **FOR iterations, negative step** (`s < 0`, counting down to `b`): the mirror image -/
+theorem for_iterations_down (a b s : Rat) (hs : s < 0) :
+    (a < b → ∀ fuel, @forLoop Rat (ratNum F) a b s fuel = ([], a)) ∧
     (∀ n : Nat, 1 ≤ n → b ≤ a + ((n : Rat) - 1) * s → a + (n : Rat) * s < b → ∀ fuel, n ≤ fuel →
-      forLoop a b s fuel = ((List.range n).map (fun i => a + (i : Rat) * s), a + (n : Rat) * s)) := by
-  letI := ratNum F
-  have hskip : ∀ v : Rat, forSkips v b s = decide (v < b) := by
-    intro v
-    simp only [forSkips, BNum.ge, BNum.gt, BNum.le, BNum.lt, BNum.zero, BNum.ofInt]
-    have h1 : decide ((0 : Rat) ≤ s) = false := by simpa using hs
-    have h2 : decide (s ≤ (0 : Rat)) = true := by simpa using le_of_lt hs
-    simp [h1, h2]
-  have hcont : ∀ v : Rat, nextContinues v b s = decide (b ≤ v) := by
-    intro v
-    simp only [nextContinues, BNum.ge, BNum.gt, BNum.le, BNum.lt, BNum.zero, BNum.ofInt]
-    have h1 : decide (s < (0 : Rat)) = true := by simpa using hs
-    have h2 : decide ((0 : Rat) < s) = false := by simpa using le_of_lt hs
-    simp [h1, h2]
-  constructor
-  · intro hab fuel
-    simp [forLoop, hskip, hab]
-  · have body : ∀ n : Nat, 1 ≤ n → ∀ (v : Rat) fuel, n ≤ fuel → b ≤ v + ((n : Rat) - 1) * s → v + (n : Rat) * s < b →
-        forBody b s fuel v = ((List.range n).map (fun i => v + (i : Rat) * s), v + (n : Rat) * s) := by
-      intro n
-      induction n with
-      | zero => intro h; omega
-      | succ n ih =>
-        intro _ v fuel hfuel hle hlt
-        obtain ⟨f, rfl⟩ : ∃ f, fuel = f + 1 := ⟨fuel - 1, by omega⟩
-        simp only [forBody, BNum.add, hcont]
-        by_cases hn : n = 0
-        · subst hn
-          have : ¬ (b ≤ v + s) := by
-            have : v + s < b := by simpa using hlt
-            exact not_le.mpr this
-          simp [this]
-        · have hn1 : 1 ≤ n := Nat.one_le_iff_ne_zero.mpr hn
-          have hge : b ≤ v + s := by
-            have h1 : (1 : Rat) ≤ (n : Rat) := by exact_mod_cast hn1
-            have : v + ((n : Rat) + 1 - 1) * s ≤ v + s := by nlinarith
-            push_cast at hle
-            linarith
-          have := ih hn1 (v + s) f (by omega) (by push_cast at hle ⊢; linarith) (by push_cast at hlt ⊢; linarith)
-          simp only [hge, decide_true, if_true, this]
-          refine Prod.ext ?_ ?_
-          · simp only [List.range_succ_eq_map, List.map_cons, List.map_map]
-            congr 1
-            · simp
-            · apply List.map_congr_left
-              intro i _
-              simp only [Function.comp, Nat.cast_succ]
-              ring
-          · push_cast; ring
-    intro n hn hle hlt fuel hfuel
-    have hna : ¬ (a < b) := by
-      have h1 : (1 : Rat) ≤ (n : Rat) := by exact_mod_cast hn
-      have : a + ((n : Rat) - 1) * s ≤ a := by nlinarith
-      exact not_lt.mpr (le_trans hle this)
-    simp only [forLoop, hskip, hna, decide_false]
-    exact body n hn a fuel hfuel hle hlt
+      @forLoop Rat (ratNum F) a b s fuel
+        = ((List.range n).map (fun (i : Nat) => a + (i : Rat) * s), a + (n : Rat) * s)) :=
+  for_iterations_neg F a b s hs
+
+/-- the count in closed form: `n = ⌊(b − a)/s⌋ + 1` satisfies the two inequalities that determine it -/
+theorem for_count_closed_form (a b s : Rat) (hs : 0 < s) (hab : a ≤ b) :
+    let n : Nat := ((b - a) / s).floor.toNat + 1
+    1 ≤ n ∧ a + ((n : Rat) - 1) * s ≤ b ∧ b < a + (n : Rat) * s := by
+  intro n
+  have hq : 0 ≤ (b - a) / s := div_nonneg (by linarith) (le_of_lt hs)
+  have hfl : 0 ≤ ((b - a) / s).floor := Rat.le_floor_iff.mpr (by simpa using hq)
+  have hcast : ((((b - a) / s).floor.toNat : Nat) : Rat) = ((((b - a) / s).floor : Int) : Rat) := by
+    have : ((((b - a) / s).floor.toNat : Nat) : Int) = ((b - a) / s).floor := Int.toNat_of_nonneg hfl
+    exact_mod_cast this
+  have h1 : ((((b - a) / s).floor : Int) : Rat) ≤ (b - a) / s := Rat.floor_le _
+  have h2 : (b - a) / s < ((((b - a) / s).floor : Int) : Rat) + 1 := by
+    have := Rat.lt_floor_add_one ((b - a) / s)
+    push_cast at this
+    exact this
+  refine ⟨Nat.succ_le_succ (Nat.zero_le _), ?_, ?_⟩
+  · have : ((n : Nat) : Rat) - 1 = ((((b - a) / s).floor : Int) : Rat) := by
+      simp only [n]; push_cast; rw [hcast]; ring
+    rw [this]
+    have := (le_div_iff₀ hs).mp h1
+    linarith
+  · have : ((n : Nat) : Rat) = ((((b - a) / s).floor : Int) : Rat) + 1 := by
+      simp only [n]; push_cast; rw [hcast]
+    rw [this]
+    have := (div_lt_iff₀ hs).mp h2
+    linarith
 
 /-- non-vacuity: `FOR i = 1 TO 2.2 STEP 0.5` runs three times (1, 1.5, 2) and leaves `i = 2.5` -/
-example : letI := ratNum F
-    forLoop (1 : Rat) (22 / 10) (1 / 2) 10 = ([1, 3 / 2, 2], 5 / 2) := by
-  letI := ratNum F
-  have := (for_iterations_pos F 1 (22 / 10) (1 / 2) (by norm_num)).2 3 (by norm_num) (by norm_num) (by norm_num) 10 (by norm_num)
+example : @forLoop Rat (ratNum F) (1 : Rat) (22 / 10) (1 / 2) 10 = ([1, 3 / 2, 2], 5 / 2) := by
+  have := (for_iterations F 1 (22 / 10) (1 / 2) (by norm_num)).2 3 (by norm_num) (by norm_num) (by norm_num) 10 (by norm_num)
   rw [this]
   norm_num [List.range_succ]
 
